@@ -99,6 +99,8 @@ def _direct(item):
         res["calls"] += 1
         # pointers: to any person, chains, -1, -2
         p_id = rng.permutation(n) * 3 + int(rng.integers(0, 50))
+        if c % 3 == 0:
+            p_id = rng.permutation(n)  # exactly 0..n-1 but not in row order (positions are not ids)
         ptr = np.where(rng.random(n) < 0.4, -1, p_id[rng.integers(0, n, n)])
         ptr = np.where(rng.random(n) < 0.05, -2, ptr)
         for ck in ("float", "int", "bool"):
@@ -233,6 +235,30 @@ def _system(item):
             T2 = T.copy()
             T2[t] = out[t].to_numpy()
             _check_group_node(T2, t, uspec[t], viol, origin)
+    # a built-in spec must win over the automatic sum that becomes possible when a column with the base name exists
+    for t in [x for x in cand_builtin if builtin_g[x]["aggr"] == "sum"][:3]:
+        from _gettsim.shared import remove_group_suffix
+
+        base = remove_group_suffix(t)
+        if base in fn or base in df.columns or base == t:
+            continue
+
+        def _const(alter: int) -> float:
+            return 1000.0 + alter
+
+        _const.__name__ = base
+        try:
+            with warnings.catch_warnings():
+                warnings.simplefilter("ignore")
+                out = env.compute_taxes_and_transfers(df, params, [functions, _const], targets=[t])
+        except Exception as e:  # noqa: BLE001
+            viol(f"builtin_vs_automatic:{type(e).__name__}", f"adding a user column {base} makes {t} fail: {str(e)[:150]}")
+            continue
+        res["user_specs"] += 1
+        res["by_origin"]["builtin_vs_automatic"] = res["by_origin"].get("builtin_vs_automatic", 0) + 1
+        T2 = T.copy()
+        T2[t] = out[t].to_numpy()
+        _check_group_node(T2, t, builtin_g[t], viol, "builtin_over_automatic")
     # user p_id spec overriding a built-in one (other source column)
     for t, sp in list(builtin_p.items())[:3]:
         if t not in nodes or sp["aggr"] != "sum":
